@@ -1251,10 +1251,49 @@ def looked_at_items(rules=("TSLACK",)):
     return out
 
 
+_SUBDIR = {}
+
+
+def _subproject_file():
+    """a small project simulated successfully and saved, to configure sub-project tasks from (one file per process tree, removed by its creator at exit)"""
+    import atexit
+    import os
+    import shutil
+    import tempfile
+
+    if "path" not in _SUBDIR:
+        from . import spec as S
+
+        d = tempfile.mkdtemp(prefix="verif-sub-")
+        pid = os.getpid()
+        atexit.register(lambda: os.getpid() == pid and shutil.rmtree(d, ignore_errors=True))
+        m = S.build(with_teams({"tasks": [{"name": "T0", "work": 2.0}, {"name": "T1", "work": 1.0}], "links": [[0, 1, "FS"]]}, "POOL1"))
+        m.project.simulate(max_time=30, absence_time_list=[])
+        path = os.path.join(d, "sub.json")
+        m.project.write_simple_json(path)
+        _SUBDIR["path"], _SUBDIR["duration"] = path, float(m.project.time)
+    return _SUBDIR["path"], _SUBDIR["duration"]
+
+
+def reconfigured_subproject_items(rules=("TSLACK",)):
+    """a sub-project task worked by the parent's own people (its size is the saved sub-project's duration), configured from its file before the run and
+    configured again from the same file at a stop - while it waits, while it is being worked on, after it is done - and the run continued"""
+    path, dur = _subproject_file()
+    sp = {"tasks": [{"name": "T0", "work": 1.0}, {"name": "S1", "work": dur, "sub": {"file_path": path, "auto": False}}, {"name": "T2", "work": 2.0}, {"name": "T3", "work": 3.0}],
+          "links": [[0, 1, "FS"], [1, 2, "FS"]],
+          "teams": [{"name": "TM0", "targets": [0, 1, 2, 3], "workers": [{"name": "W0", "skills": {"T0": 1.0, "S1": 1.0, "T2": 1.0}, "cost": 1.0}, {"name": "W1", "skills": {"T3": 1.0, "S1": 1.0}, "cost": 2.0}]}],
+          "subproject_setup": True, "label": "worked-subproject-reconfigured"}
+    out = []
+    for k in (1, 2, 3, 4, 5):
+        out.append((sp, {"rule": rules[0], "resume_from": k, "pause_reconfigure": True, "max_time": 24}))
+    out.append((sp, {"rule": rules[0], "resume_from": 2, "pause_reconfigure": True, "pause_queries": True, "absence": [1, 3], "max_time": 26}))
+    return out
+
+
 def extra_items(rules=("TSLACK",), calendars=True):
     """round 13: other ways of building the object graph, and continuations planned with another calendar / flag than the part before the stop;
     round 15: runs looked at through every read-only helper at a stop"""
-    return usage_items(rules) + looked_at_items(rules) + (revised_calendar_items(rules) if calendars else [])
+    return usage_items(rules) + looked_at_items(rules) + reconfigured_subproject_items(rules) + (revised_calendar_items(rules) if calendars else [])
 
 
 def stuck_component_specs():
